@@ -99,6 +99,14 @@ def _work_inner(job):
             for mname, d, src in mutants_of(name, node, kind, instr_src, limit=job["mut_limit"], rng=rng):
                 progs.append((mname, src))
                 descr[mname] = d
+    if job.get("tight"):
+        from .tight import c03_family
+
+        fam = c03_family()[job["tight"]]
+        lo, hi = job.get("slice", (0, len(fam)))
+        for tname, tsrc in fam[lo:hi]:
+            progs.append((tname, tsrc))
+            descr[tname] = "tight:" + job["tight"]
     if job.get("gen"):
         from .gen import generate
 
@@ -107,13 +115,14 @@ def _work_inner(job):
             progs.append((gname, gsrc))
             descr[gname] = "generated"
     if progs:
-        mod = build_module(job["seeds"][0] if job["seeds"] else f"gen{job['gen'][0]}", progs)
+        mod = build_module(job["seeds"][0] if job["seeds"] else (f"gen{job['gen'][0]}" if job.get("gen") else f"tight_{job['tight']}_{job.get('slice', (0,))[0]}"), progs)
         out["rejected"] = len(mod.REJ)
         out["rej_samples"] = list(mod.REJ.items())[:3]
         for mname, p in mod.PROCS.items():
             r = check_program(mname, p, bounds)
             r["src"] = str(p)
-            r["origin"] = ("generated" if descr.get(mname) == "generated" else "mutant:" + descr.get(mname, ""))
+            dd = descr.get(mname, "")
+            r["origin"] = "generated" if dd == "generated" else (dd if dd.startswith("tight:") else "mutant:" + dd)
             out["results"].append(r)
     return out
 
@@ -137,6 +146,13 @@ def run(tier):
     n_gen_jobs, per_job = (8, 12) if tier == "quick" else (40, 25)
     base = (vseed % 5) * 100 if tier == "quick" else 0
     jobs += [dict(seeds=[], bounds=bounds, rngseed=vseed, mut_limit=0, gen=(base + g, per_job)) for g in range(n_gen_jobs)]
+    # tight families (vlib/tight.py): boundary grids for every acceptance check of the front end; always complete
+    from .tight import c03_family
+
+    fam_sizes = {k: len(v) for k, v in c03_family().items()}
+    for fam, n in fam_sizes.items():
+        for lo in range(0, n, 25):
+            jobs.append(dict(seeds=[], bounds=bounds, rngseed=vseed, mut_limit=0, tight=fam, slice=(lo, min(n, lo + 25))))
     with mp.get_context("fork").Pool(ncpu(), maxtasksperchild=4) as pool:
         outs = pool.map(_work, jobs, chunksize=1)
     rep = Reporter("C03")
@@ -181,6 +197,8 @@ def run(tier):
         "errors": errors[:10],
         "bounds": bounds,
         "obligation_kinds": list(C03_KINDS),
+        "tight_families": fam_sizes,
+        "tight_accepted": {k: sum(1 for o in outs for r in o["results"] if r.get("origin") == "tight:" + k) for k in fam_sizes},
         "source_hashes": repo_file_hashes(["src/exo/frontend/boundscheck.py", "src/exo/frontend/typecheck.py", "src/exo/rewrite/new_eff.py", "src/exo/API.py"]),
         "known_findings_matched": {k: v[1] for k, v in rep.known.items()},
     }
